@@ -19,9 +19,9 @@ func init() {
 		Explanation: "Decided: R12-isfull — for each call-frame stack implementation, IsFull() is true exactly in the state in which its own Push cannot accept a frame (atom-by-atom comparison of IsFull's returned conjunction with the path condition of Push's overflow exit / the bounds of its element store), and Push records Idx equal to the implementation's own Sp() expression; " +
 			"R12-full — every callFrameStack.Push is dominated by an IsFull() test whose true arm raises a Lua error, or pushes the first frame of a fresh thread; R12-grow — every store to an element of registry.array is dominated in its function by a grow check against cap(array) that reaches resize (or is a shrink/pop store), resize raises through the handler when maxSize is exceeded, registryOverflow raises a Lua error, and raiseError forces one slot when the registry is full before pushing the message; " +
 			"R12-loops — mainLoop and mainLoopWithContext perform the same sequence of effects apart from the context poll; R12-options — NewThread passes the parent's Options unchanged, newLState selects the stack implementation only from MinimizeStackMemory and sizes registry and stack from the Options fields. " +
-			"R13-poolrelease shared — the segmented stack never uses a segment after handing it back to the pool (Pop/SetSp return frames of segments it still owns). R12-deadpush — when a coroutine dies, threadRun's recover arms empty its registry (SetTop(0)) before pushing the error value that is handed to the resumer: the registry may be full (the limit that killed it), and a second overflow inside the deferred function would skip the hand-over. NOT decided: that behaviour below the limits is identical across configurations (segment arithmetic of SetSp/Pop/At, copy of the live prefix on resize) — run-time quantities.",
+			"R13-poolrelease shared — the segmented stack never uses a segment after handing it back to the pool (Pop/SetSp return frames of segments it still owns). R12-deadpush — when a coroutine dies, threadRun's recover arms empty its registry (SetTop(0)) before pushing the error value that is handed to the resumer: the registry may be full (the limit that killed it), and a second overflow inside the deferred function would skip the hand-over. R02-copies shared — the stand-alone frame/registry helpers (used when a coroutine starts) and their inlined copies (used by calls) have the same statements, so growth and nil-filling behave alike on every path. NOT decided: that behaviour below the limits is identical across configurations (segment arithmetic of SetSp/Pop/At, copy of the live prefix on resize) — run-time quantities.",
 		Trusted: []string{"Go bounds checks make an element store at index i fail exactly when i >= len(slice)"},
-		Rules:   []func(*Ctx){ruleIsFull, ruleFull, ruleGrow, ruleLoops, ruleOptions, rulePoolRelease, ruleDeadThreadPush},
+		Rules:   []func(*Ctx){ruleIsFull, ruleFull, ruleGrow, ruleLoops, ruleOptions, rulePoolRelease, ruleDeadThreadPush, ruleInlineCopies},
 	})
 }
 
